@@ -35,6 +35,12 @@ func main() {
 		runC02(r, rng, thorough)
 	case "C03":
 		runC03(r, rng, thorough)
+	case "C04":
+		runC04(r, rng, thorough)
+	case "C05":
+		runC05(r, rng, thorough)
+	case "C06":
+		runC06(r, rng, thorough)
 	case "C14":
 		runC14(r, rng, thorough)
 	case "C17":
